@@ -13,7 +13,7 @@ from .. import gen
 
 TRANSLATOR = os.path.join(ROOT, 'harness', 'translate', 'py2gallina_c17.py')
 GEN_FILE = 'DensityReuseGen.v'
-GEN_CHAIN = ['Base/PyC17.v', 'Gen/DensityReuseGen.v', 'Proofs/GenDensityReuseEq.v', 'Props/C17gen.v']
+GEN_CHAIN = ['Base/PyC17.v', 'Gen/DensityReuseGen.v', 'Proofs/GenDensityReuseEq.v', 'Proofs/GenDensityReuseEq2.v', 'Props/C17gen.v']
 EXTRA_PROPS = ('C17gen',)
 ASSUMPTION = gen.ASSUMPTION + (
     '; C17 front end (py2gallina_c17.py): three STATEMENT BLOCKS are cut out of the ASTs of DensityEstimation.__init__ (self.data_bins = '
@@ -23,8 +23,11 @@ ASSUMPTION = gen.ASSUMPTION + (
     'locals of the surrounding method become parameters, find_enclosing_bin(..) = [0, len(sorted_data[d])], `x in list of float tuples` = '
     'py_c17_tuple_in (coq/Base/PyC17.v), a bare tuple as truth value = len > 0, the calls find_data_in_domain(domain) / '
     'hat_function_non_symmetric(hat, domain, data[x]) / the label lookup become table lookups selected[i] / hatvals[i][x] / signs[x], the '
-    'unused get_hat_domain statement is dropped; not translated: find_closest_old_B, post_processing and the dictionary operations '
-    '(string-keyed dicts, attribute writes - outside the subset; the model theorem shows that the choice of the old key is irrelevant)')
+    'unused get_hat_domain statement is dropped; phase 4: the hand-over block of post_processing and find_closest_old_B (without its unused tail) are '
+    'translated as well - dictionaries as association lists keyed by the int tuples max_levels instead of the strings str(max_levels), '
+    'attribute paths as names, D.keys() as D.items(), a read-only alias inlined, float membership / index through coq/Base/PyC17.v, the '
+    'nested-list append as a local row; `Ret Some x` of the shared renderer is re-parenthesised; post_processing is proved equal to Model.post, '
+    'find_closest_old_B is generated and type-checked on every run but its equivalence with Model.find_closest is not proved yet')
 
 
 def regenerate(chk):
